@@ -507,6 +507,8 @@ static void runFields(Rng& rng, const std::vector<Field>& fields, const char* ki
 	memset(g.pre, 0xA5, sizeof g.pre); memset(g.post, 0x5A, sizeof g.post);
 	// dirty the buffer first: the write stream must start from a cleared buffer
 	memset(static_cast<void*>(&g.buf), 0xFF, sizeof g.buf);
+	// (not always one constant: left-over content with zero bytes in the middle is what a reused buffer looks like)
+	if (rng.chance(2, 3)) for (unsigned j = 0; j < BYTES; ++j) g.buf.data()[j] = rng.chance(1, 3) ? 0x00 : static_cast<uint8_t>(rng.next() | 1);
 
 	RefBits ref(BYTES * 8);
 	ffsm2::detail::BitWriteStreamT<CAP> ws{g.buf, static_cast<ffsm2::Long>(startCursor)};
